@@ -62,6 +62,7 @@ func genCluCase(e *Env) *jCluCase {
 }
 
 func runCluCase(e *Env, c *jCluCase) error {
+	e.Running(c)
 	dir := tempDir()
 	defer rmDir(dir)
 	t := &c.Table
